@@ -458,10 +458,16 @@ Definition reply_args (es : list entry) : list payload :=
 
 Inductive rres := ROk (ret : Z) (buf : list byte) | RFail (why : sres).
 
-Definition path_search_msg (root : list port) (loc needle : str) (opt : sopt) (buf : list byte) : rres :=
+(* reply_with_query: the two query strings come first in types/args and are
+   not part of the sorted / filtered region (after the commit "fix: path_search
+   with reply_with_query sorted the two query strings ...") *)
+Definition path_search_msg (root : list port) (loc needle : str) (opt : sopt) (rwq : bool)
+                           (buf : list byte) : rres :=
   match path_search root loc needle opt with
   | SOk es =>
-      match amessage (Some buf) paths_addr (reply_tags es) (reply_args es) with
+      let qt := if rwq then [115; 115] else [] in
+      let qa := if rwq then [PStr loc; PStr needle] else [] in
+      match amessage (Some buf) paths_addr (qt ++ reply_tags es) (qa ++ reply_args es) with
       | Ok (n, Some b) => ROk n b
       | _ => RFail SOob
       end
